@@ -47,7 +47,7 @@ class Statistics(Contract):
     modules = PIPE_MODS + ("glotaran.project.result",)
     trusted = TRUSTED_PIPE + (
         "numpy.linalg.svd(J, full_matrices=False) replaced by its contract: s >= 0 descending, rows of Vt orthonormal (J = U diag(s) Vt)",
-        "mathematical fact (not machine-checked): V diag(1/s^2 for s^2 > eps) V^T is the Moore-Penrose pseudo-inverse of J^T J",
+        "that C = V diag(1/s^2 for s^2 > eps, else 0) V^T (obligation covariance_is_sum_of_retained_singular_directions) is the symmetric Moore-Penrose pseudo-inverse of J^T J = V diag(s^2) V^T - all four Penrose conditions - whenever the singular values cut off are zero (in general: of the truncated V diag(retained s^2) V^T) is the Lean development lemmas/PseudoInverse.lean (gram_of_svd, penrose_conditions, cutoff_inverse_conditions; every size; re-checked every run)",
     )
     strength = "S"
     agreement_runs = 0
@@ -182,3 +182,32 @@ def sym_decide(cond):
     from pyvc import sym
 
     return sym.CUR.decide(cond)
+
+
+class PseudoInverseLemma(Contract):
+    """The mathematics between `covariance_is_sum_of_retained_singular_directions` and "the covariance matrix is
+    the symmetric positive semi-definite pseudo-inverse of J^T J": proved in Lean 4 + Mathlib for every size and
+    re-checked by `lean` on every run (`lemmas/PseudoInverse.lean`)."""
+
+    prop = "C13"
+    name = "PseudoInverseLemma"
+    target = None
+    strength = "U"
+    trusted = ("Lean 4.33 kernel and Mathlib (Matrix, diagonal, transpose); axioms propext, Classical.choice, Quot.sound",)
+
+    def cases(self, tier):
+        return iter(())
+
+    def static_obligations(self, tier):
+        from pathlib import Path
+
+        from pyvc.lean import check_lemmas
+
+        return check_lemmas(
+            Path(__file__).resolve().parent.parent / "lemmas" / "PseudoInverse.lean",
+            {
+                "PyVC.gram_of_svd": "lemma_gram_matrix_of_the_svd_is_V_diag_s2_Vt",
+                "PyVC.penrose_conditions": "lemma_four_penrose_conditions_and_symmetry_for_all_sizes",
+                "PyVC.cutoff_inverse_conditions": "lemma_cutoff_reciprocals_satisfy_the_penrose_hypotheses",
+            },
+        )
